@@ -7,7 +7,12 @@ jsonschema.validate(man, json.load(open("/root/.vp/MANIFEST.schema.json")))
 es = json.load(open("/root/.vp/EVIDENCE.schema.json"))
 for f in sorted(glob.glob("/verif/evidence/*.json")):
     try:
-        jsonschema.validate(json.load(open(f)), es)
+        j = json.load(open(f))
+        jsonschema.validate(j, es)
+        c = j.get("coverage", {})
+        if c.get("discharged") != c.get("obligations"):
+            # the file was written by a run against a modified tree (a mutant, a seeded change): re-run the check on the unchanged tree before committing
+            raise ValueError(f"coverage.discharged ({c.get('discharged')}) != obligations ({c.get('obligations')}): evidence of a run that did not hold")
     except Exception as e:
         ok = False
         print("INVALID", f, str(e)[:300])
